@@ -9,5 +9,34 @@ import (
 func TestVerifC04(t *testing.T) {
 	w := verifOpen(t, "C04")
 	defer w.Close()
-	c04RunAll(w, func(i int, r *rand.Rand) c04Plan { return c04Plans(i, r, false) })
+	c04RunAll(w, func(i int, r *rand.Rand) c04Plan {
+		pr := c04Opts{Pres: true}
+		switch i {
+		case 1, 2, 3: // presence-manager faults: RemovePresence reports an error during an explicit unsubscribe
+			// (client command / server-side) or during close; routing must still follow the subscription state
+			kind := []string{"", "unsubcli", "unsubsrv", "close"}[i]
+			return c04Plan{Name: "presence-remove-error/" + kind, NCh: 1, Armed: []c04Gk{c04GkPresRem, c04GkJoin},
+				Script: func(e *c04Eng, r *rand.Rand) {
+					c04Connect(e)
+					e.spawn(c04Op{Kind: "subsrv", Ch: 0, Opts: pr})
+					e.spawn(c04Op{Kind: kind, Ch: 0})
+					if p := e.parkOf(c04GkPresRem); p != nil {
+						e.release(p, false)
+					}
+				}}
+		case 5: // AddPresence failing during subscribe (rollback), then a RemovePresence error in the rollback
+			return c04Plan{Name: "presence-add-error/subscribe", NCh: 1, Armed: []c04Gk{c04GkPresAdd, c04GkPresRem, c04GkJoin},
+				Script: func(e *c04Eng, r *rand.Rand) {
+					c04Connect(e)
+					e.spawn(c04Op{Kind: "subsrv", Ch: 0, Opts: pr})
+					if p := e.parkOf(c04GkPresAdd); p != nil {
+						e.release(p, false)
+					}
+					if p := e.parkOf(c04GkPresRem); p != nil {
+						e.release(p, false)
+					}
+				}}
+		}
+		return c04Plans(i, r, false)
+	})
 }
